@@ -677,6 +677,22 @@ func c06Gen(rng *rand.Rand) *metaCase {
 		main = append(main, "##!> include-except outersfx outersfxx")
 		feats["nested-file-repeats-a-line-of-the-outer-file"] = true
 	}
+	// a list of the length of a real word list (more than any log excerpt, read buffer or small-size shortcut): the
+	// entries in its middle are treated like the first ones
+	if core.Chance(rng, 1, 4) {
+		var long, longx strings.Builder
+		for i := 0; i < 70; i++ {
+			e := fmt.Sprintf("%s%02d%s", core.Pick(rng, "ironwood", "juniper", "kapok", "larch"), i, core.Pick(rng, "@", "~", "", "@"))
+			long.WriteString(e + "\n")
+			if i%9 == 4 || (i >= 20 && i <= 26) {
+				longx.WriteString(e + "\n")
+			}
+		}
+		p.Files.Include["longlist"] = long.String()
+		p.Files.Exclude["longlistx"] = longx.String()
+		main = append(main, core.Pick(rng, "##!> include-except longlist longlistx", "##!> include-except longlist longlistx -- @ [\\s>] ~ \"\"", "##!> include longlist -- @ AT"))
+		feats["long-word-list"] = true
+	}
 	// an exclude file that is itself built by an include-except directive: the inner directive finishes before the
 	// outer one goes on
 	if core.Chance(rng, 1, 5) {
@@ -843,6 +859,19 @@ func c07Gen(rng *rand.Rand) *metaCase {
 		p.Files.Include["sepblank"] = "##!> define sep \\s+\nbaz{{sep}}qux\nx{{onlydash}}y\n"
 		body = append(body, core.Pick(rng, "##!> include sepdash", "##!> include sepblank"), core.Pick(rng, "##!> include sepblank", "##!> include sepdash", "##!> include-except sepblank sepnone"))
 		p.Files.Exclude["sepnone"] = "notlisted\n"
+	}
+	if core.Chance(rng, 1, 4) {
+		// the same list through two include-except directives whose exclude files define the same name differently:
+		// each exclude file is read with its own definition
+		feats["two-exclude-files-define-the-same-name"] = true
+		p.Files.Include["sharedlist"] = "alpha,one\nbeta two\nbeta,two\ngamma;three\n"
+		p.Files.Exclude["xsepcomma"] = "##!> define xsep ,\nalpha{{xsep}}one\nbeta{{xsep}}two\n"
+		p.Files.Exclude["xsepsemi"] = "##!> define xsep ;\ngamma{{xsep}}three\nbeta{{xsep}}two\n"
+		a, b := "##!> include-except sharedlist xsepcomma", "##!> include-except sharedlist xsepsemi"
+		if core.Chance(rng, 1, 2) {
+			a, b = b, a
+		}
+		body = append(body, a, "##!=>", b)
 	}
 	if nd > 0 && core.Chance(rng, 1, 4) {
 		// an include-except list that uses a name of the including file, an exclude file that spells the expanded
